@@ -303,9 +303,8 @@ fn h_w_text_with_overtaking_fin() {
 }
 
 //# id=scenario.window_counts_the_unacknowledged_syn props=C17 kind=scenario bound=one_call_sequence_passive_open_65535_octets_submitted_before_the_handshake_completes pair=tcb.Tcb.segments.new_data_stays_inside_send_window
-// KNOWN FINDING (known-findings.txt): an endpoint whose own SYN is still unacknowledged (SYN-RECEIVED / SYN-SENT) budgets
-// the send window from the text octets on the retransmission queue only; the SYN occupies one sequence number, so
-// with a full window of data the last octet lies one beyond SND.UNA + SND.WND.
+// an endpoint whose own SYN is still unacknowledged (SYN-RECEIVED) and that has more than a window of data to send: the
+// SYN occupies one sequence number, so the data must stop one octet earlier (defect of the pinned tree, fixed: e430ca04)
 #[cfg(vx_replay)]
 #[test]
 fn h_s_window_counts_syn() {
